@@ -39,9 +39,25 @@ Invoke == /\ l <= Len(Rec) /\ E.ev = "inv"
                                             op |-> [name |-> E.op.name, p |-> E.op.p, v |-> ToSet(E.op.v), f |-> E.op.f, bad |-> E.op.bad],
                                             ret |-> R!Err("none")]]
           /\ l' = l + 1 /\ UNCHANGED <<doc, funcs>>
+\* Array indices as built: below an array, a token is an index iff Rust's usize::from_str accepts it (an optional
+\* "+", then digits, leading zeros allowed), on the read side and on the write side alike; "01" and "+1" are
+\* spellings of "1".  (RFC 6901 allows only the canonical spelling; the registry is more lenient, consistently.)
+\* Registry.tla compares tokens only, so the spelling is normalised here, against the document at the linearization point.
+Digits == {"0", "1", "2", "3", "4", "5", "6", "7", "8", "9"}
+Body(t) == IF Len(t) >= 1 /\ t[1] = "+" THEN Tail(t) ELSE t
+IsIndexSpelling(t) == Len(Body(t)) >= 1 /\ \A i \in 1..Len(Body(t)) : Body(t)[i] \in Digits
+RECURSIVE StripZeros(_)
+StripZeros(b) == IF Len(b) > 1 /\ b[1] = "0" THEN StripZeros(Tail(b)) ELSE b
+NormIdx(t) == IF IsIndexSpelling(t) THEN StripZeros(Body(t)) ELSE t
+RECURSIVE NormPrefix(_, _, _)
+NormPrefix(d, p, k) == IF k = 0 THEN <<>>
+                       ELSE LET q == NormPrefix(d, p, k - 1) IN
+                            Append(q, IF R!Has(d, q) /\ R!TagOf(d, q) = "arr" THEN NormIdx(p[k]) ELSE p[k])
+\* (registrations never index: they turn whatever is on their path into objects keyed by the literal tokens)
+NormOp(op) == IF IsRegistration(op.name) THEN op ELSE [op EXCEPT !.p = NormPrefix(doc, op.p, Len(op.p))]
 Linearize(t) == /\ pend[t].st = "inv"
-                /\ R!Effect(pend[t].op)
-                /\ pend' = [pend EXCEPT ![t].st = "lin", ![t].ret = R!Ret(pend[t].op)]
+                /\ R!Effect(NormOp(pend[t].op))
+                /\ pend' = [pend EXCEPT ![t].st = "lin", ![t].ret = R!Ret(NormOp(pend[t].op))]
                 /\ UNCHANGED l
 CallsOf(cs) == [i \in 1..Len(cs) |-> [f |-> cs[i].f, arg |-> ToSet(cs[i].arg)]]
 Respond == /\ l <= Len(Rec) /\ E.ev = "res"
